@@ -19,6 +19,93 @@ MT = LL + "MutableTrie::"
 ROLE = {"num_nodes": "nodes", "num_values": "values", "num_borrowed_nodes": "borrowed_values", "num_entries": "entries"}
 
 
+def marked_rules(ck):
+    """in-place changes are marked as modified (shared by C03: contents survive freezing, and C04: the frozen hash reflects them)"""
+    # a node whose value or stem is changed in place is marked as modified (origin = None); otherwise freezing reuses the
+    # persistent original of the node and the change is lost in the frozen state
+    nmut = 0
+    for name in ("insert", "delete", "delete_prefix"):
+        f = getfn(ck, "sc", E, LL + "MutableTrie::" + name)
+        if not f:
+            continue
+        vn = f.names()
+        clears, muts = [], []
+        for bi in f.reachable():
+            for st in f.stmts(bi):
+                if "lhs" in st and st["lhs"][1] and str(st["lhs"][1][-1]).endswith(":origin"):
+                    clears.append((bi, st["lhs"][0]))
+                rv = st.get("rv", {})
+                if rv.get("k") == "ref" and rv.get("mut") and rv["p"][1] and re.search(r":(value|path)$", str(rv["p"][1][-1])) and "MutableNode" in f.locals[rv["p"][0]]:
+                    muts.append((bi, rv["p"][0], str(rv["p"][1][-1]).split(":")[-1]))
+                if "lhs" in st and st["lhs"][1] and re.search(r":(value|path)$", str(st["lhs"][1][-1])) and "MutableNode" in f.locals[st["lhs"][0]]:
+                    muts.append((bi, st["lhs"][0], str(st["lhs"][1][-1]).split(":")[-1]))
+        for k, (bi, l, fld) in enumerate(muts):
+            ok = any(l2 == l and (f.dominates(b2, bi) or f.dominates(bi, b2)) for (b2, l2) in clears)
+            nmut += 1
+            ck.ob("DEFUSE", f.path, "modified-node-marked:%s.%s#%d" % (vn.get(l, "_%d" % l), fld, k), ok,
+                  "the node whose %s is changed has its origin cleared on the same path" % fld if ok else
+                  "`%s.%s` is changed but `%s.origin` is not cleared on that path: freeze() will reuse the node's persistent original and drop the change" % (vn.get(l, l), fld, vn.get(l, l)), f.loc(bi))
+    ck.floor("DEFUSE", "in-place changes of a node's value or stem", nmut, 6)
+
+    # the same for a node's children: `make_owned(i, ..)` hands out node i's child list for modification; when that list is
+    # changed, `origin` of the node with the SAME index must be cleared (clearing another node's origin leaves node i tied
+    # to its persistent original, and freeze() resurrects the removed subtree)
+    nch = 0
+    for name in ("insert", "delete", "delete_prefix"):
+        f = getfn(ck, "sc", E, LL + "MutableTrie::" + name)
+        if not f:
+            continue
+        vn = f.names()
+
+        def idx_of(op):
+            r = rules.root_local(f, op)
+            return r[0] if r and not r[1] else None
+        # origin clears keyed by the index the node reference was obtained with
+        cleared = []
+        for bi in f.reachable():
+            for st in f.stmts(bi):
+                if "lhs" in st and st["lhs"][1] and str(st["lhs"][1][-1]).endswith(":origin"):
+                    # the node reference: result of get_unchecked_mut / index_mut / get_mut on the node table
+                    work, seen = [st["lhs"][0]], set()
+                    while work:
+                        l = work.pop()
+                        if l in seen:
+                            continue
+                        seen.add(l)
+                        for (b2, si, it) in f.defs().get(l, []):
+                            if si == "t":
+                                if re.search(r"get_unchecked_mut$|IndexMut::index_mut$|index_mut$|::get_mut$", it["f"].get("path", "")) and len(it["args"]) >= 2:
+                                    cleared.append((bi, idx_of(it["args"][1])))
+                                elif re.search(r"::(expect|unwrap|unwrap_unchecked|deref_mut|as_mut)$", it["f"].get("path", "")) and it["args"]:
+                                    q = op_place(it["args"][0])
+                                    if q:
+                                        work.append(q[0])
+                                continue
+                            rv = it["rv"]
+                            q = op_place(rv.get("a")) if rv.get("k") in ("use", "cast") else (rv.get("p") if rv.get("k") == "ref" else None)
+                            if q:
+                                work.append(q[0])
+        for (mb, mt) in f.calls(r"low_level::make_owned$"):
+            dest = mt["dest"][0]
+            idx = idx_of(mt["args"][0])
+            # is the child list (3rd component) changed?
+            changes = []
+            for (cb, ct) in f.calls(r"Vec::<.*>::(remove|push|insert|pop|clear|truncate|swap_remove|retain)$|IndexMut::index_mut$|index_mut$"):
+                if not ct["args"]:
+                    continue
+                o = f.origins(ct["args"][0], deep=True)
+                if any(a[0] == "call" and len(a) > 2 and a[2] == mb for a in o) and f.dominates(mb, cb):
+                    changes.append(cb)
+            if not changes:
+                continue
+            nch += 1
+            ok = idx is not None and any(i2 == idx and (f.dominates(b2, changes[0]) or f.dominates(changes[0], b2)) for (b2, i2) in cleared)
+            ck.ob("DEFUSE", f.path, "children-changed-node-marked:%s#%d" % (vn.get(idx, "_%s" % idx), nch), ok,
+                  "the node whose child list is changed has its origin cleared (same index)" if ok else
+                  "the child list of node `%s` is changed but the origin of that node is not cleared (cleared indices: %s): freeze() reuses the persistent original with the old children" % (vn.get(idx, idx), sorted(set(vn.get(i2, str(i2)) for _, i2 in cleared))), f.loc(changes[0]))
+    ck.floor("DEFUSE", "child lists changed through make_owned", nch, 3)
+
+
 def run(ck):
     ck.explanation = ("Decides checkpoint completeness (every table length recorded, every table truncated with its own field) and "
                       "that persistent nodes cannot be written from mutable-trie operations or host functions (call-graph reachability).")
@@ -144,28 +231,40 @@ def run(ck):
                       "the migrated node's value index is entries.len() taken before the push of the copied entry; the old index is only used to read the entry" if fresh and not shared else
                       "the migrated node can keep the OLD generation's entry index (%s): both generations then share one entry slot" % (how or "no fresh index from entries.len()"), f.loc(bi))
 
-    # a node whose value or stem is changed in place is marked as modified (origin = None); otherwise freezing reuses the
-    # persistent original of the node and the change is lost in the frozen state
-    nmut = 0
-    for name in ("insert", "delete", "delete_prefix"):
-        f = getfn(ck, "sc", E, LL + "MutableTrie::" + name)
-        if not f:
+    marked_rules(ck)
+
+    # ---- the shared trie is cut back to the caller's own generation before anything else is done with it: a generation that
+    # was abandoned (rolled back) stays on the shared stack until the next `normalize(root)`, so every owner-side use of the
+    # locked trie - in particular starting the next generation - must come after it
+    API = E + "::v1::trie::api::"
+    nuse = 0
+    for p0 in sorted(c.paths()):
+        if not p0.startswith(API + "MutableState::"):
             continue
-        vn = f.names()
-        clears, muts = [], []
-        for bi in f.reachable():
-            for st in f.stmts(bi):
-                if "lhs" in st and st["lhs"][1] and str(st["lhs"][1][-1]).endswith(":origin"):
-                    clears.append((bi, st["lhs"][0]))
-                rv = st.get("rv", {})
-                if rv.get("k") == "ref" and rv.get("mut") and rv["p"][1] and re.search(r":(value|path)$", str(rv["p"][1][-1])) and "MutableNode" in f.locals[rv["p"][0]]:
-                    muts.append((bi, rv["p"][0], str(rv["p"][1][-1]).split(":")[-1]))
-                if "lhs" in st and st["lhs"][1] and re.search(r":(value|path)$", str(st["lhs"][1][-1])) and "MutableNode" in f.locals[st["lhs"][0]]:
-                    muts.append((bi, st["lhs"][0], str(st["lhs"][1][-1]).split(":")[-1]))
-        for k, (bi, l, fld) in enumerate(muts):
-            ok = any(l2 == l and (f.dominates(b2, bi) or f.dominates(bi, b2)) for (b2, l2) in clears)
-            nmut += 1
-            ck.ob("DEFUSE", f.path, "modified-node-marked:%s.%s#%d" % (vn.get(l, "_%d" % l), fld, k), ok,
-                  "the node whose %s is changed has its origin cleared on the same path" % fld if ok else
-                  "`%s.%s` is changed but `%s.origin` is not cleared on that path: freeze() will reuse the node's persistent original and drop the change" % (vn.get(l, l), fld, vn.get(l, l)), f.loc(bi))
-    ck.floor("DEFUSE", "in-place changes of a node's value or stem", nmut, 6)
+        for b in c.get_all(p0):
+            f = Fn(b)
+            locks = [bi for (bi, t) in f.calls(r"trie::api::MutableStateInner::lock$")]
+            if not locks:
+                continue
+            norms = []
+            for (bi, t) in f.calls(r"low_level::MutableTrie::normalize$"):
+                o = f.origins(t["args"][1]) if len(t["args"]) > 1 else set()
+                if any(a[0] == "field" and a[1] == "root" for a in o):
+                    norms.append(bi)
+            uses = [(bi, t) for (bi, t) in f.calls(r"low_level::MutableTrie::[a-z_]+$") if not re.search(r"::(normalize|empty)$", t["f"]["path"])]
+            nuse += 1
+            ck.ob("DOM", f.path, "normalizes-to-own-generation", len(norms) >= 1,
+                  "the locked shared trie is normalised to `inner.root`" if norms else "the shared trie is locked but never normalised to the caller's generation (`normalize(inner.root)`)", f.loc(locks[0]))
+            for (bi, t) in uses:
+                ok = any(f.dominates(nb, bi) and nb != bi for nb in norms)
+                ck.ob("DOM", f.path, "normalized-before:" + t["f"]["path"].split("::")[-1], ok,
+                      "normalize(inner.root) dominates the call" if ok else "`%s` runs on the shared trie without a preceding normalize(inner.root): changes of an abandoned generation are still on top and leak into what follows" % t["f"]["path"].split("::")[-1], f.loc(bi))
+    ck.floor("DOM", "owner-side uses of the locked shared trie", nuse, 3)
+    # and nothing but the owner starts generations
+    ng = set()
+    for p0 in sorted(c.paths()):
+        for b in c.get_all(p0):
+            f = Fn(b)
+            if f.calls(r"low_level::MutableTrie::new_generation$"):
+                ng.add(re.sub(r"::\{closure#\d+\}", "", p0))
+    ck.ob("WHO", MT + "new_generation", "callers", ng == {API + "MutableState::make_fresh_generation"}, "generations are started by %s" % sorted(x.split("::v1::trie::")[-1] for x in ng), "")
